@@ -65,10 +65,42 @@ def planted(rng):
     return k, g
 
 
-def random_graph(rng, nmax=14, allow_isolates=False):
+def clique_union(rng, ncliques=None):
+    """many (8..24) mostly edge-disjoint cliques of sizes 2..5 strung together by shared vertices, plus a small cluster of
+    overlapping cliques: sparse, 20..70 vertices, with far more maximal cliques than a small hash table holds"""
+    g = nx.Graph()
+    k = ncliques or rng.randint(8, 24)
+    nxt = 0
+    prev = None
+    for _ in range(k):
+        s = rng.choice([2, 3, 3, 4, 4, 5])
+        vs = list(range(nxt, nxt + s))
+        nxt += s
+        if prev is not None and rng.random() < 0.8:
+            vs[0] = rng.choice(prev)          # share one vertex with the previous clique (edge-disjoint)
+        g.add_edges_from((a, b) for i, a in enumerate(vs) for b in vs[i + 1:])
+        prev = vs
+    # overlapping cluster
+    base = list(range(nxt, nxt + rng.randint(4, 6)))
+    for _ in range(rng.randint(2, 4)):
+        vs = rng.sample(base, rng.randint(3, min(4, len(base))))
+        g.add_edges_from((a, b) for i, a in enumerate(vs) for b in vs[i + 1:])
+    if prev:
+        g.add_edge(prev[-1], base[0])
+    return g
+
+
+def random_graph(rng, nmax=14, allow_isolates=False, large=0.0):
     """(description, nx.Graph) - simple, loop-free, vertices relabelled 0..n-1 in random order"""
     r = rng.random()
-    if r < 0.35:
+    if rng.random() < large:
+        if rng.random() < 0.6:
+            g = clique_union(rng); d = "clique-union(%d vertices)" % g.number_of_nodes()
+        else:
+            n = rng.randint(20, 40)
+            p = rng.choice([0.06, 0.1, 0.15])
+            g = nx.gnp_random_graph(n, p, seed=rng.randrange(1 << 30)); d = "gnp(%d,%.2f)" % (n, p)
+    elif r < 0.35:
         n = rng.randint(2, nmax)
         p = rng.choice([0.2, 0.35, 0.5, 0.7, 0.9])
         g = nx.gnp_random_graph(n, p, seed=rng.randrange(1 << 30))
